@@ -94,121 +94,6 @@ def run(cfg):
     return R
 
 
-def restore_rule(R, lib, consts):
-    R.rule('R1', 'createForTimeZoneData: the arm selected by each TimeZoneData type *value* performs the matching restore', floor=6)
-    fs = [f for f in lib.fns('ace_time::ZoneManagerImpl::createForTimeZoneData')]
-    if len(fs) < 2:
-        raise AnalysisError('anchor moved: ZoneManagerImpl::createForTimeZoneData instantiations')
-    for f in fs:
-        d = f.params[0][0]
-        sx = SymExec(fold_global=lib.global_value)
-        s = sx.run(f.name, f.body, {})
-        tag = 'basic' if 'basic' in (f.inst or '') else 'extended'
-        for name, key in (('kTypeError', 'TZD.kTypeError'), ('kTypeManual', 'TZD.kTypeManual'), ('kTypeZoneId', 'TZD.kTypeZoneId')):
-            c = '%s[%s]:type=%s' % (f.name, tag, name)
-            hits = select(s, d + '.type', consts[key])
-            R.instance('R1', c, f.loc, 'value %d' % consts[key])
-            if len(hits) != 1 or hits[0][0] != 'return':
-                R.violation('R1', c, f.loc, 'type value %d selects %d arms' % (consts[key], len(hits)))
-                continue
-            call = call_of(hits[0][1])
-            ok = False
-            why = 'returns %s' % (poly_key_str(hits[0][1]) if hits[0][1] is not None else None)
-            if name == 'kTypeError':
-                ok = call is not None and call[1] == TZ + '::forError'
-            elif name == 'kTypeManual':
-                if call is not None and call[1] == TZ + '::forTimeOffset' and len(call[2]) == 2:
-                    args = [call_of(x) for x in call[2]]
-                    fields = []
-                    for a in args:
-                        if a is not None and a[1] == 'ace_time::TimeOffset::forMinutes' and len(a[2]) == 1:
-                            fa = _atom(_P(a[2][0]))
-                            fields.append(fa[1] if fa and fa[0] == 'sym' else None)
-                    ok = fields == [d + '.stdOffsetMinutes', d + '.dstOffsetMinutes']
-                    why = 'restores the offsets from %s (expected std, dst in that order)' % fields
-            else:
-                if call is not None and call[1].endswith('::createForZoneId') and len(call[2]) == 2:
-                    fa = _atom(_P(call[2][1]))
-                    ok = fa == ('sym', d + '.zoneId')
-            if not ok:
-                R.violation('R1', c, f.loc, 'a saved %s (type value %d) is restored through an arm that %s' % (name, consts[key], why))
-
-
-def save_rule(R, lib, consts):
-    R.rule('R2', 'toTimeZoneData / getZoneId: every TimeZone kind saves the right type and payload', floor=11)
-    f = lib.fn(TZ + '::toTimeZoneData')
-    sx = SymExec(fold_global=lib.global_value)
-    s = sx.run(f.name, f.body, {})
-    expect = {
-        'kTypeManual': ('TZD.kTypeManual', {'d.stdOffsetMinutes': ('sym', 'this.mStdOffsetMinutes'), 'd.dstOffsetMinutes': ('sym', 'this.mDstOffsetMinutes')}),
-        'kTypeError': ('TZD.kTypeError', {}),
-    }
-    for k in ('kTypeBasic', 'kTypeExtended', 'kTypeBasicManaged', 'kTypeExtendedManaged'):
-        expect[k] = ('TZD.kTypeZoneId', {'d.zoneId': ('fn', TZ + '::getZoneId')})
-    dvar = None
-    for name, (tname, payload) in expect.items():
-        c = '%s:kind=%s' % (f.name, name)
-        R.instance('R2', c, f.loc, 'value %d' % consts['TZ.' + name])
-        hits = select(s, 'this.mType', consts['TZ.' + name])
-        if len(hits) != 1:
-            R.violation('R2', c, f.loc, 'kind value %d selects %d arms' % (consts['TZ.' + name], len(hits)))
-            continue
-        eff = {}
-        ra = _atom(_P(hits[0][1])) if hits[0][1] is not None else None
-        if ra is not None and ra[0] == 'init' and ra[1].endswith('TimeZoneData'):
-            # the record starts as what one of its constructors builds: the constructor body says which field gets which
-            # argument; the stores of the path come on top
-            ctors = [c_ for c_ in lib.funcs.get(TZD + '::TimeZoneData', []) if len(c_.params) == len(ra[2]) and c_.body is not None]
-            if ctors:
-                cs = SymExec(fold_global=lib.global_value).run(ctors[0].name, ctors[0].body, {p: _P(k) for (p, _t), k in zip(ctors[0].params, ra[2])})
-                if len(cs.paths) == 1:
-                    for tgt, val in cs.paths[0][3]:
-                        if tgt.startswith('this.'):
-                            eff[tgt[5:]] = val
-        for tgt, val in hits[0][2]:
-            if tgt != 'call' and not tgt.startswith('local:'):
-                eff[tgt.split('.', 1)[1] if '.' in tgt else tgt] = val
-        # normalise target names to d.<field>
-        eff = {('d.' + k_): v for k_, v in eff.items()}
-        tv = eff.get('d.type')
-        if tv is None or not _P(tv).is_const() or _P(tv).const_value() != consts[tname]:
-            R.violation('R2', c, f.loc, 'saved type is %s, expected %s (%d)' % (poly_key_str(tv) if tv else None, tname, consts[tname]))
-            continue
-        for fld, want in payload.items():
-            got = eff.get(fld)
-            a = _atom(_P(got)) if got is not None else None
-            ok = a is not None and ((want[0] == 'sym' and a == want) or (want[0] == 'fn' and a[0] == 'fn' and a[1] == want[1]))
-            if not ok:
-                R.violation('R2', c, f.loc, 'payload %s is %s, expected %s' % (fld, poly_key_str(got) if got is not None else 'unset', want[1]))
-    # getZoneId arms
-    g = lib.fn(TZ + '::getZoneId')
-    sg = SymExec(fold_global=lib.global_value).run(g.name, g.body, {})
-    want = {'kTypeManual': None, 'kTypeBasic': 'basic', 'kTypeBasicManaged': 'basic', 'kTypeExtended': 'extended', 'kTypeExtendedManaged': 'extended'}
-    for name, scope in want.items():
-        c = '%s:kind=%s' % (g.name, name)
-        R.instance('R2', c, g.loc)
-        hits = select(sg, 'this.mType', consts['TZ.' + name])
-        if len(hits) != 1 or hits[0][0] != 'return':
-            R.violation('R2', c, g.loc, 'kind value selects %d arms' % len(hits))
-            continue
-        res = hits[0][1]
-        if scope is None:
-            if not (_P(res).is_const() and _P(res).const_value() == 0):
-                R.violation('R2', c, g.loc, 'a manual zone reports zone id %s, expected 0' % poly_key_str(res))
-            continue
-        call = call_of(res)
-        ok = False
-        if call is not None and call[1].endswith('::zoneId') and call[2]:
-            recv = _atom(_P(call[2][0]))
-            if recv is not None and recv[0] == 'init':
-                cls = recv[1]
-                arg = _atom(_P(recv[2][0])) if recv[2] else None
-                ok = ('Basic' if scope == 'basic' else 'Extended') + 'Zone' in cls and arg == ('sym', 'this.mZoneInfo')
-        if not ok:
-            R.violation('R2', c, g.loc, 'zone id of a %s zone is read as %s, expected %sZone(mZoneInfo).zoneId()' %
-                        (scope, poly_key_str(res), 'Basic' if scope == 'basic' else 'Extended'))
-
-
 def equality_table(lib, f, fields, disc=None, disc_values=(None,), other=None):
     """Decide operator== by evaluation of its path summary (E-GNF, boolean returns split into guarded 1/0 outcomes) on every
     0/1 assignment of the fields of both operands: -> list of (disc value, {field: (va, vb)}, result) rows; result None
